@@ -73,7 +73,15 @@ func load(repo string, overlay map[string][]byte, tags string) (*Ctx, error) {
 	if err != nil {
 		return nil, err
 	}
-	pkgs, normOv, normNotes := normalize(repo, overlay, tags, pkgs)
+	normOv, normNotes, normalized := normalize(repo, overlay, tags, pkgs)
+	if normalized {
+		pkgs = nil
+		runtime.GC()
+		pkgs, err = loadPkgs(repo, normOv, tags)
+		if err != nil {
+			return nil, err
+		}
+	}
 	if d := os.Getenv("FDCHECK_DUMP_NORMAL"); d != "" {
 		for f, b := range normOv {
 			_ = os.WriteFile(filepath.Join(d, filepath.Base(f)), b, 0o644)
